@@ -553,7 +553,7 @@ def tolerant_family_cases(ctx: core.Ctx):
         for fam, tags in (("render", None), ("include", None), ("mixed", ["include", "render"]), ("mixed", ["render", "render"])):
             for fanout in (1, 2, 3):
                 for cycle in (1, 2, 3):
-                    for ws in ([], ["if"], ["for", "if"]):
+                    for ws in ([], ["if"], ["for", "if"]) + ((["if"] * 13, ["if"] * 20) if fanout == 2 and cycle == 1 and tags is None else ()):
                         k += 1
                         if k % ctx.nshards != ctx.shard:
                             continue
